@@ -104,9 +104,9 @@ def main():
                     meta = json.load(open(mp))
                 except Exception:
                     meta = {}
-                viol = [l.split("replay=")[1].split()[0] for l in out.splitlines() if l.startswith("VIOLATION property=") and "replay=" in l]
+                viol = [l.split(" ", 1)[1].split("::")[-1] for l in out.splitlines() if l.startswith("FAILED-OBLIGATION ")]
                 meta["detected_by_check"] = prop if res == "ok" else None
-                meta["failed_obligations"] = sorted(set(os.path.basename(v).replace(".json", "") for v in viol))[:12]
+                meta["failed_obligations"] = sorted(set(viol))[:12]
                 json.dump(meta, open(mp, "w"), indent=1)
             und = " (undecided: proof incomplete, no alarm)" if kind == "harmless" and "UNDECIDED property=" in out else ""
             print(f"{res:8s} {kind:8s} {prop} {label}{und}")
